@@ -123,31 +123,58 @@ Proof.
 Qed.
 
 (** ** expire_root *)
-Definition exp_only (evs: list event) : Prop := Forall (fun ev : event => fst (fst ev) = EvExp) evs.
+Definition ev_ok (time: Z) (t: ktree) (ev: event) : Prop :=
+  KInv (snd ev) /\ shrinks time t (kroot (snd ev)).
+(* expiration() callbacks only; at each of them the collection is valid and has lost only dead entries *)
+Definition exp_only (time: Z) (t: ktree) (evs: list event) : Prop :=
+  Forall (fun ev : event => fst (fst ev) = EvExp /\ ev_ok time t ev) evs.
+
+Lemma exp_only_nil time t : exp_only time t [].
+Proof. constructor. Qed.
+
+Lemma exp_only_weaken time t t1 evs : shrinks time t t1 -> exp_only time t1 evs -> exp_only time t evs.
+Proof.
+  intros Hs H. eapply Forall_impl; [|exact H]. intros ev (Hk & HI & Hs1). split; [exact Hk|].
+  split; [exact HI|]. eapply shrinks_trans; eauto.
+Qed.
+
+Lemma exp_only_cons time s e s1 evs : KInv s -> shrinks time (kroot s) (kroot s1) ->
+  exp_only time (kroot s1) evs -> exp_only time (kroot s) ((EvExp, e, s) :: evs).
+Proof.
+  intros HI Hs H. constructor.
+  - split; [reflexivity|]. split; [exact HI|apply shrinks_refl].
+  - eapply exp_only_weaken; eauto.
+Qed.
+
+Lemma exp_only_one time s e : KInv s -> exp_only time (kroot s) [(EvExp, e, s)].
+Proof. intros HI. apply (exp_only_cons time s e s []); auto using shrinks_refl, exp_only_nil. Qed.
 
 Lemma expire_root_spec time : forall fuel s, KInv s -> (ksize (kroot s) <= fuel)%nat ->
   exists s' evs, expire_root fuel s time = Ret (s', evs) /\ KInv s' /\ shrinks time (kroot s) (kroot s') /\
-    exp_only evs /\
+    exp_only time (kroot s) evs /\
     match kroot s' with E => True | T _ _ _ e _ => live time e = true end.
 Proof.
   induction fuel as [|fuel IH]; intros s HI Hf.
   - destruct (kroot s) as [|c l x e r] eqn:Hr; [|simpl in Hf; lia].
     exists s, []. simpl. rewrite Hr. split; [reflexivity|]. split; [exact HI|]. split; [apply shrinks_refl|].
-    split; [constructor|exact I].
+    split; [apply exp_only_nil|exact I].
   - simpl. destruct (kroot s) as [|c l x e r] eqn:Hr.
-    + exists s, []. split; [reflexivity|]. split; [exact HI|]. rewrite Hr. split; [apply shrinks_refl|]. split; [constructor|exact I].
+    + exists s, []. split; [reflexivity|]. split; [exact HI|]. rewrite Hr. split; [apply shrinks_refl|].
+      split; [apply exp_only_nil|exact I].
     + destruct (live time e) eqn:Hl.
       * exists s, [(EvExp, e, s)]. split; [reflexivity|]. split; [exact HI|]. rewrite Hr. split; [apply shrinks_refl|].
-        split; [repeat constructor|exact Hl].
+        split; [rewrite <- Hr; apply exp_only_one; exact HI|exact Hl].
       * assert (Hin: In (x, e) (kel (kroot s))) by (rewrite Hr; simpl; apply in_or_app; simpl; auto).
         destruct (kdelete_spec s x e HI Hin) as (s1 & d & f & A & B & Hk & HI1 & _ & He & Hents).
         rewrite Hk. simpl.
         destruct (tdel_ents _ _ _ _ _ _ He Hents) as (Hperm & Hlen).
+        assert (Hsh1: shrinks time (kroot s) (kroot s1)).
+        { exists [e]. split; [exact Hperm|]. repeat constructor. exact Hl. }
         destruct (IH s1 HI1) as (s2 & evs & Hex & HI2 & Hsh & Hev & Hroot).
         { rewrite !size_elements in *. unfold RBTree.ents in Hlen. rewrite !map_length in Hlen. rewrite <- Hr in Hf. lia. }
         rewrite Hex. simpl. exists s2, ((EvExp, e, s) :: evs). split; [reflexivity|]. split; [exact HI2|].
-        split; [|split; [constructor; auto|exact Hroot]].
-        rewrite <- Hr. eapply shrinks_trans; [|exact Hsh]. exists [e]. split; [exact Hperm|]. repeat constructor. exact Hl.
+        split; [rewrite <- Hr; eapply shrinks_trans; eauto|].
+        split; [rewrite <- Hr; apply (exp_only_cons time s e s1 evs HI Hsh1 Hev)|exact Hroot].
 Qed.
 
 (** ** expire_child *)
@@ -164,7 +191,7 @@ Lemma expire_child_strong d time : forall fuel s cx lx x ex rx,
     Permutation (kents (kroot s)) (kents (kroot s') ++ removed) /\
     Permutation (kents (child_of d lx rx)) (kents (child_of d lx' rx') ++ removed) /\
     Forall (fun e => live time e = false) removed /\
-    exp_only evs /\
+    exp_only time (kroot s) evs /\
     ksubtree (T cx' lx' x ex rx') (kroot s') /\
     match oy with
     | None => child_of d lx' rx' = E
@@ -176,10 +203,10 @@ Proof.
   simpl. rewrite (child_subtree d (kroot s) _ _ _ _ _ ND Hs).
   destruct (child_of d lx rx) as [|c l y e r] eqn:Hch.
   - exists s, None, [], cx, lx, rx, []. rewrite Hch, !app_nil_r. split; [reflexivity|]. split; [exact HI|].
-    split; [reflexivity|]. split; [reflexivity|]. split; [constructor|]. split; [constructor|]. split; [exact Hs|reflexivity].
+    split; [reflexivity|]. split; [reflexivity|]. split; [constructor|]. split; [apply exp_only_nil|]. split; [exact Hs|reflexivity].
   - destruct (live time e) eqn:Hlive.
     + exists s, (Some y), [(EvExp, e, s)], cx, lx, rx, []. rewrite Hch, !app_nil_r. split; [reflexivity|]. split; [exact HI|].
-      split; [reflexivity|]. split; [reflexivity|]. split; [constructor|]. split; [repeat constructor|]. split; [exact Hs|].
+      split; [reflexivity|]. split; [reflexivity|]. split; [constructor|]. split; [apply exp_only_one; exact HI|]. split; [exact Hs|].
       exists c, l, e, r. auto.
     + (* delete y *)
       assert (Hy_ch: In y (kslots (child_of d lx rx))) by (rewrite Hch; apply root_in_slots).
@@ -190,6 +217,8 @@ Proof.
       destruct (kdelete_spec s y e HI Hye_t) as (s1 & dd & ff & A & B & Hk & HI1 & Hdel & He & Hents).
       rewrite Hk. simpl.
       destruct (tdel_ents _ _ _ _ _ _ He Hents) as (Hperm & _).
+      assert (Hsh1: shrinks time (kroot s) (kroot s1)).
+      { exists [e]. split; [exact Hperm|]. repeat constructor. exact Hlive. }
       assert (NDu: NoDup (kslots (T cx lx x ex rx))) by (eapply sub_nodup; eauto).
       destruct (NoDup_node kent _ _ _ _ _ NDu) as (NDl & NDr & _).
       assert (Hstep: forall ch ch' dl cx' lx1 rx1,
@@ -202,7 +231,7 @@ Proof.
           Permutation (kents (kroot s)) (kents (kroot s') ++ removed) /\
           Permutation (kents ch) (kents (child_of d lx2 rx2) ++ removed) /\
           Forall (fun e => live time e = false) removed /\
-          exp_only evs /\
+          exp_only time (kroot s) evs /\
           ksubtree (T cx2 lx2 x ex rx2) (kroot s') /\
           match oy with
           | None => child_of d lx2 rx2 = E
@@ -225,7 +254,7 @@ Proof.
         split; [rewrite Hperm, Hp2, app_assoc; reflexivity|].
         split; [rewrite Hperm1, Ech', Hpc2, app_assoc; reflexivity|].
         split; [apply Forall_app; split; [exact Hd2|repeat constructor; exact Hlive]|].
-        split; [constructor; auto|]. split; [exact Hs2|exact Hoy]. }
+        split; [apply (exp_only_cons time s e s1 evs HI Hsh1 Hev2)|]. split; [exact Hs2|exact Hoy]. }
       rewrite <- Hch.
       destruct d; simpl in *.
       * destruct (del_under_left kent (kroot s) ND _ _ _ _ _ _ _ _ _ Hs Hy_ch Hdel) as (lx' & dl & cx' & rx' & Hdl & Hs').
@@ -243,7 +272,7 @@ Lemma expire_child_spec d time : forall fuel s cx lx x ex rx,
   KInv s -> ksubtree (T cx lx x ex rx) (kroot s) -> (ksize (child_of d lx rx) < fuel)%nat ->
   exists s' oy evs cx' lx' rx',
     expire_child fuel d s x time = Ret (s', oy, evs) /\ KInv s' /\ shrinks time (kroot s) (kroot s') /\
-    exp_only evs /\
+    exp_only time (kroot s) evs /\
     ksubtree (T cx' lx' x ex rx') (kroot s') /\
     incl (kents (child_of d lx' rx')) (kents (child_of d lx rx)) /\
     (forall z, In z (kents (child_of d lx rx)) -> live time z = true -> In z (kents (child_of d lx' rx'))) /\
@@ -360,11 +389,33 @@ Proof.
   - destruct q; simpl in Hok; discriminate.
 Qed.
 
+(* at every callback the collection is valid and has lost only dead entries; a key handed to the
+   caller's comparison code is live and stored *)
 Definition cmp_live (time: Z) (t: ktree) (evs: list event) : Prop :=
-  forall ev, In ev evs -> fst (fst ev) = EvCmp -> live time (snd (fst ev)) = true /\ In (snd (fst ev)) (kents t).
+  forall ev, In ev evs -> ev_ok time t ev /\
+    (fst (fst ev) = EvCmp -> live time (snd (fst ev)) = true /\ In (snd (fst ev)) (kents t)).
 
-Lemma exp_only_cmp_live time t evs : exp_only evs -> cmp_live time t evs.
-Proof. intros H ev Hin Hk. unfold exp_only in H. rewrite Forall_forall in H. rewrite (H ev Hin) in Hk. discriminate. Qed.
+Lemma exp_only_cmp_live time t evs : exp_only time t evs -> cmp_live time t evs.
+Proof.
+  intros H ev Hin. unfold exp_only in H. rewrite Forall_forall in H. destruct (H ev Hin) as (Hk & Hok).
+  split; [exact Hok|]. intros Hc. rewrite Hk in Hc. discriminate.
+Qed.
+
+Lemma cmp_live_weaken time t t1 evs : shrinks time t t1 -> cmp_live time t1 evs -> cmp_live time t evs.
+Proof.
+  intros Hs H ev Hin. destruct (H ev Hin) as ((HI & Hs1) & Hc). split.
+  - split; [exact HI|eapply shrinks_trans; eauto].
+  - intros Hk. destruct (Hc Hk) as (Hl & Hi). split; [exact Hl|]. eapply shrinks_incl; eauto.
+Qed.
+
+Lemma cmp_live_app time t a b : cmp_live time t a -> cmp_live time t b -> cmp_live time t (a ++ b).
+Proof. intros Ha Hb ev Hin. apply in_app_or in Hin. destruct Hin; auto. Qed.
+
+Lemma cmp_live_cons time s ex rest : KInv s -> live time ex = true -> In ex (kents (kroot s)) ->
+  cmp_live time (kroot s) rest -> cmp_live time (kroot s) ((EvCmp, ex, s) :: rest).
+Proof.
+  intros HI Hl Hin Hr ev [<-|Hev]; [|auto]. split; [split; [exact HI|apply shrinks_refl]|]. simpl. auto.
+Qed.
 
 Definition post_search (q: qkind) (f: Z -> comparison) (time: Z) (s: kstate)
   (res: res (kstate * option Z * list event)) : Prop :=
@@ -397,7 +448,7 @@ Proof.
     exists s, (Some ex), [(EvCmp, ex, s)]. split; [reflexivity|]. split; [exact HI|]. split; [apply shrinks_refl|].
     split; [intros r Hr; inversion Hr; subst; split; [exact Hex_t|split; auto]|].
     split; [intros e He Hc'; exists ex; split; [reflexivity|eapply step_ret_dominates; eauto]|].
-    intros ev [<-|[]] _. simpl. auto. }
+    apply cmp_live_cons; auto. intros ev []. }
   (* continue below the child in direction d *)
   destruct (expire_child_spec d time (KeyModel.ksize s) s cx lx x ex rx HI Hs) as
     (s1 & oy & evs1 & cx' & lx' & rx' & Hec & HI1 & Hsh & Hev1 & Hs' & Hci & Hck & Hcs & Hoy).
@@ -460,13 +511,12 @@ Proof.
     + rewrite <- Hch. exact I3'.
     + rewrite Hq. simpl. exists s2, outg, ((EvCmp, ex, s) :: evs1 ++ evs2). split; [reflexivity|]. split; [exact HI2|].
       split; [eapply shrinks_trans; eauto|]. split; [exact O1|]. split; [exact O2|].
-      intros ev [<-|Hin] Hk; [simpl; auto|]. apply in_app_or in Hin. destruct Hin as [Hin|Hin].
-      * apply (exp_only_cmp_live time (kroot s) evs1 Hev1 ev Hin Hk).
-      * destruct (Hev2 ev Hin Hk) as (Hl2 & Hin2). split; [exact Hl2|]. apply Hinc. exact Hin2.
+      apply cmp_live_cons; auto. apply cmp_live_app; [apply exp_only_cmp_live; exact Hev1|].
+      eapply cmp_live_weaken; [exact Hsh|exact Hev2].
   - exists s1, rg', ((EvCmp, ex, s) :: evs1). split; [reflexivity|]. split; [exact HI1|]. split; [exact Hsh|].
     split; [exact I1'|]. split.
     + intros e He Hc. destruct (I2' e He Hc) as [Hin|Hr]; [|exact Hr]. rewrite Hoy in Hin. destruct Hin.
-    + intros ev [<-|Hin] Hk; [simpl; auto|]. apply (exp_only_cmp_live time (kroot s) evs1 Hev1 ev Hin Hk).
+    + apply cmp_live_cons; auto. apply exp_only_cmp_live. exact Hev1.
 Qed.
 
 (** ** the descent of insert_entity *)
@@ -527,12 +577,11 @@ Proof.
     + rewrite <- Hch. exact Hpath1.
     + rewrite Hq. simpl. exists s2, ((EvCmp, ex, s) :: evs1 ++ evs2). split; [reflexivity|]. split; [exact HI2|].
       split; [eapply shrinks_trans; eauto|]. split; [exact Hno|].
-      intros ev [<-|Hin] Hk; [simpl; auto|]. apply in_app_or in Hin. destruct Hin as [Hin|Hin].
-      * apply (exp_only_cmp_live time (kroot s) evs1 Hev1 ev Hin Hk).
-      * destruct (Hev2 ev Hin Hk) as (Hl2 & Hin2). split; [exact Hl2|]. apply Hinc. exact Hin2.
+      apply cmp_live_cons; auto. apply cmp_live_app; [apply exp_only_cmp_live; exact Hev1|].
+      eapply cmp_live_weaken; [exact Hsh|exact Hev2].
   - exists s1, ((EvCmp, ex, s) :: evs1). split; [reflexivity|]. split; [exact HI1|]. split; [exact Hsh|]. split.
     + intros e He Hk. pose proof (Hpath1 e He Hk) as Hin. rewrite Hoy in Hin. destruct Hin.
-    + intros ev [<-|Hin] Hk; [simpl; auto|]. apply (exp_only_cmp_live time (kroot s) evs1 Hev1 ev Hin Hk).
+    + apply cmp_live_cons; auto. apply exp_only_cmp_live. exact Hev1.
 Qed.
 
 (** ** linking the new entry *)
@@ -589,9 +638,8 @@ Proof.
     + discriminate.
     + cbn [bind fst snd]. rewrite Hq. cbn [bind fst snd]. exists s2, outg, (evs1 ++ evs2). split; [reflexivity|]. split; [exact HI2|].
       split; [eapply shrinks_trans; eauto|]. split; [exact O1|]. split; [exact O2|].
-      intros ev Hin Hk. apply in_app_or in Hin. destruct Hin as [Hin|Hin].
-      * apply (exp_only_cmp_live time (kroot s) evs1 Hev1 ev Hin Hk).
-      * destruct (Hev2 ev Hin Hk) as (Hl2 & Hin2). split; [exact Hl2|]. apply Hinc'. exact Hin2.
+      apply cmp_live_app; [apply exp_only_cmp_live; exact Hev1|].
+      eapply cmp_live_weaken; [exact Hsh1'|exact Hev2].
 Qed.
 
 Lemma k_insert_spec s ne time : KInv s ->
@@ -625,7 +673,6 @@ Proof.
       destruct (k_link_spec s2 ne HI2 Hno) as (s3 & Hl & HI3 & Hperm). rewrite Hl. cbn [bind fst snd].
       exists s3, (evs1 ++ evs2), (kroot s2). split; [reflexivity|]. split; [exact HI3|].
       split; [eapply shrinks_trans; eauto|]. split; [exact Hperm|].
-      intros ev Hin Hk. apply in_app_or in Hin. destruct Hin as [Hin|Hin].
-      * apply (exp_only_cmp_live time (kroot s) evs1 Hev1 ev Hin Hk).
-      * destruct (Hev2 ev Hin Hk) as (Hl2 & Hin2). split; [exact Hl2|]. apply Hinc'. exact Hin2.
+      apply cmp_live_app; [apply exp_only_cmp_live; exact Hev1|].
+      eapply cmp_live_weaken; [exact Hsh1'|exact Hev2].
 Qed.
